@@ -933,6 +933,19 @@ def output_from_exit_aggregates(F, R, names, rule='G-exit'):
              else (bad[0] if bad else 'the output does not use any aggregate exit value'), v.file)
 
 
+def _flat_and(conds):
+    """Path conditions with top-level conjunctions split into their conjuncts (a && b holds iff both hold)."""
+    out = []
+    todo = list(conds)
+    while todo:
+        c = todo.pop(0)
+        if c[0] == 'op' and c[1] == 'and':
+            todo = list(c[2]) + todo
+        else:
+            out.append(c)
+    return out
+
+
 def ratio_guards(F, R):
     """Rsi: 100 exactly when the loss aggregate is 0; MyRSI: the ratio is formed only when cu+cd != 0 (else hold)."""
     views = view_by_name(F)
@@ -976,8 +989,21 @@ def ratio_guards(F, R):
                                             continue
                                         if not fl.delivering(conds_):
                                             continue
+                                        conds_ = _flat_and(conds_)
                                         divs_ = {y[2][1] for y in subterms(lv) if y[0] == 'op' and y[1] == 'div' and len(y[2]) == 2}
                                         pos = any((_rel(c_, D_, lit(0.0)) or {'<', '=', '>'}) <= {'>'} for c_ in conds_ for D_ in divs_)
+                                        if not pos and lv == lit(0.0):
+                                            # the literal 0 = 100·G/(G+L) at G = 0: accepted on a path that shows L > 0 for the guarded
+                                            # divisor L and G <= 0 for the numerator G of the guarded ratio (rounding residue included)
+                                            numers = set()
+                                            for y in divs:
+                                                g_ = y[2][0]
+                                                numers.add(g_)
+                                                if g_[0] == 'op' and g_[1] in ('max', 'fmax') and len(g_[2]) == 2 and lit(0.0) in g_[2]:
+                                                    numers.add(g_[2][0] if g_[2][1] == lit(0.0) else g_[2][1])
+                                            lpos = any((_rel(c_, guard_term, lit(0.0)) or {'<', '=', '>'}) <= {'>'} for c_ in conds_)
+                                            gnon = any((_rel(c_, G_, lit(0.0)) or {'<', '=', '>'}) <= {'<', '='} for c_ in conds_ for G_ in numers)
+                                            pos = lpos and gnon
                                         if ok and not pos:
                                             ok = False
                                             detail = 'a value other than 100 (%s) is reported on a path that does not exclude a zero loss aggregate' % tstr(lv)[:40]
